@@ -29,6 +29,7 @@ def vcut(right, bounds, el, tier, nv=1, vals=None):
     emax = max(el)
     b.append('kani::cover!(fl.mismatch, "label count does not match the edges");')
     if vals == "ExcludedExtreme":
+        b.append('assert!(!fl.extreme_unlabelled, "open bounds: the extreme value of the type is labelled like any other value");')
         b.append('kani::cover!(fl.extreme, "the extreme value of the type under open bounds");')
         name = f"c14_vcut_open_extreme_{side}_{es(el)}"
     else:
@@ -86,8 +87,11 @@ for right in (True, False):
         vcut(right, bounds, [2], "t", nv=2)
         vcut(right, bounds, [3], "t", nv=2)
     # the extreme value under open bounds: the pinned tree materialises the bounds as MIN / MAX
-    vcut(right, True, [0, 1, 2], "q", vals="ExcludedExtreme")
-    vcut(right, True, [3], "t", vals="ExcludedExtreme")
+    # (one cheap edge count in the quick tier: the native replay of a failing harness needs a full CBMC trace,
+    # measured 350 s for the merged E = 0,1,2 harness)
+    vcut(right, True, [1], "q", vals="ExcludedExtreme")
+    for e in (0, 2, 3):
+        vcut(right, True, [e], "t", vals="ExcludedExtreme")
 
 # vsorted_unique_idx / vsorted_unique
 for ty in ("opt", "f64"):
@@ -98,8 +102,10 @@ for ty in ("opt", "f64"):
         uniq(k, ty, [4], "t", nulls)
         uniq(k, ty, [6], "t", nulls)
     # Keep::Last behind a leading null block: the pinned tree emits an index of a null
-    uniq("last", ty, [2, 4], "q" if ty == "opt" else "t", "Leading", tag="_leading_nulls")
-    uniq("last", ty, [3, 5], "t", "Leading", tag="_leading_nulls")
+    # (one length per harness: Kani cuts the path at a failed assertion)
+    uniq("last", ty, [4], "q" if ty == "opt" else "t", "Leading", tag="_leading_nulls")
+    for n in (2, 3, 5):
+        uniq("last", ty, [n], "t", "Leading", tag="_leading_nulls")
 
 out = ["// @generated by /verif/tools/gen_c14.py — do not edit by hand", ""]
 for name, tier, unwind, body in H:
